@@ -1,6 +1,7 @@
 //! vdrive: conformance driver binding the TLA+ specification in /verif/spec to the crates built
 //! from /repo's working tree.  `replay` feeds TLC-generated vectors into the real public API;
 //! `record` drives the real code and writes ndjson events for TLC trace validation.
+mod chunkid;
 mod common;
 mod latest;
 mod search;
@@ -14,6 +15,7 @@ fn main() {
     let args = Args::parse();
     match args.module.as_str() {
         "sweep" => sweep::run(&args),
+        "chunkid" => chunkid::run(&args),
         "search" => search::run(&args),
         "latest" => latest::run(&args),
         m => {
